@@ -58,13 +58,17 @@ def expected_get(ref, k):
     return {"<not set>"}
 
 
-def conf_expand(acc, batch, last=False, keys=None, values=None):
+# global options given in the same invocation as `config set/unset/get`: they apply to that invocation only and never reach the file
+FLAGSETS = [(), ("-b", "sge"), ("-v", "debug"), ("--no-color",), ("-b", "lsf", "-v", "warning")]
+
+
+def conf_expand(acc, batch, last=False, keys=None, values=None, only_flags=None):
     for world, trace in batch:
         ref = dict(world.conf or {})
         acc.case(key=json.dumps(ref, sort_keys=True), outcome=None, nontrivial=True, sample=dict(trace=trace) if len(trace) == 2 else None)
         if last:
             continue
-        for n, a in enumerate(actions(keys, values)):
+        for n, a, flags in [(n, a, f) for n, a in enumerate(actions(keys, values)) for f in (FLAGSETS if (len(trace) in (0, 3) and only_flags is None) else [tuple(only_flags or ())])]:
             nested = (len(trace) + n) % 2 == 1
             ref2 = dict(ref)
             if a[0] == "set":
@@ -75,13 +79,13 @@ def conf_expand(acc, batch, last=False, keys=None, values=None):
                 args = ["config", "unset", a[1]]
             with W.Session(world) as s:
                 cwd = os.path.join(s.proj, "nested", "dir") if nested else None
-                r = s.gwf(args, cwd=cwd)
+                r = s.gwf(list(flags) + args, cwd=cwd)
                 other = "a" if a[1] != "a" else "a.b"
-                g1 = s.gwf(["config", "get", a[1]], cwd=cwd)
+                g1 = s.gwf(list(flags) + ["config", "get", a[1]], cwd=cwd)
                 g2 = s.gwf(["config", "get", other], cwd=None if nested else os.path.join(s.proj, "nested", "dir"))
                 acc.extra["invocations"] += 3
                 snap = s.snapshot()
-            case = dict(kind="conf", trace=trace + [list(a)], nested=nested)
+            case = dict(kind="conf", trace=trace + [list(a)], nested=nested, flags=list(flags))
             problems = []
             if r.exit_code != 0 or r.crashed():
                 problems.append(f"`gwf {' '.join(args)}` failed: exit {r.exit_code} {r.exc or r.err_summary()}")
@@ -98,8 +102,10 @@ def conf_expand(acc, batch, last=False, keys=None, values=None):
             acc.case(key=None, outcome=f"{a[0]} ok={not problems}", nontrivial=False)
             if problems:
                 acc.violation(sig=dict(kind="conf", action=a[0], what=problems[0].split(" ")[0][:20], key=a[1] if a[1] in ("verbose", "clean_logs", "use_spec_hashes", "neverset") else "*"),
-                              case=case, expected=ref2, observed=problems, msg=f"from {ref!r}, {'(nested dir) ' if nested else ''}`gwf {' '.join(args)}`: {problems}")
+                              case=case, expected=ref2, observed=problems, msg=f"from {ref!r}, {'(nested dir) ' if nested else ''}`gwf {' '.join(list(flags) + args)}`: {problems}")
                 continue
+            if flags:
+                continue  # same successor state as without the options
             w2 = world.copy()
             w2.conf = ref2 if (ref2 or snap.conf is not None) else None
             w2.conf = ref2
@@ -231,7 +237,20 @@ def ns_batch(acc, batch):
             calls = [e for e in s.sim.s["journal"] if e["op"] == "call"]
             subs = s.sim.journal_submits()
             attempts = list(s.connect_attempts)
+            w_after = s.snapshot()
         acc.extra["invocations"] += 1
+        if backend == "slurm" and r.exit_code == 0:
+            # whether accounting is consulted only shows once there is a tracked job to ask about
+            with W.Session(w_after) as s:
+                s.gwf(["status"])
+                calls += [e for e in s.sim.s["journal"] if e["op"] == "call"]
+            wc = w_after.copy()
+            wc.conf = dict(wc.conf, **{"backend.slurm.accounting_enabled": True})
+            with W.Session(wc) as s:
+                s.gwf(["status"])
+                control = [e["exe"] for e in s.sim.s["journal"] if e["op"] == "call"]
+            assert "sacct" in control, ("calibration: with accounting enabled `gwf status` must consult sacct", control)
+            acc.extra["invocations"] += 2
         case = dict(kind="ns", backend=backend, subset=subset)
         problems = []
         if backend == "slurm":
@@ -295,7 +314,7 @@ def replay(case):
                 ref.pop(a[1], None)
         w.conf = ref or None
         a2 = Acc()
-        conf_expand(a2, [(w, tr[:-1])], keys=[tr[-1][1]], values=[tr[-1][2]] if tr[-1][0] == "set" else ["x"])
+        conf_expand(a2, [(w, tr[:-1])], keys=[tr[-1][1]], values=[tr[-1][2]] if tr[-1][0] == "set" else ["x"], only_flags=case.get("flags", []))
         return [v for v in a2.violations if v["case"]["trace"][-1] == tr[-1]] or a2.violations[:1]
     if k == "prec":
         prec_batch(acc, [(case["what"], case["flag"], case["conf"])])
